@@ -32,7 +32,7 @@ def one(m):
 
 def main():
     ms = [m for m in mutants.MUTANTS if not m.get("transform")] + selfcheck._seeded()
-    with multiprocessing.Pool(16) as pool:
+    with multiprocessing.Pool(int(os.environ.get("PGV_JOBS", "16"))) as pool:
         res = pool.map(one, ms)
     bad = 0
     for mid, kind, st, eq in res:
